@@ -145,16 +145,12 @@ class ContentElement:
     '''Attaches the element to `doc`, or detaches it from its current owning
     `ContentDocument` if `doc` is `None`.'''
 
-    if doc is None:
+    # only the root of a tree can be attached or detached, so that all elements of a tree belong to the same document
 
-      # detaching
+    if self.parent() is not None:
+      raise RuntimeError("Element must be removed from parent first")
 
-      if self.parent() is not None:
-        raise RuntimeError("Element must be removed from parent first")
-
-      self.set_region(None)
-
-    else:
+    if doc is not None:
 
       # attaching
 
@@ -162,10 +158,17 @@ class ContentElement:
         if e.is_attached():
           raise RuntimeError("Element must be detached first")
 
-    self._doc = doc
+    # pylint: disable=W0212
 
-    for e in self:
-      e.set_doc(doc)
+    for e in self.dfs_iterator():
+
+      e._doc = doc
+
+      if doc is None:
+        # detached elements cannot reference a region
+        e._region = None
+
+    # pylint: enable=W0212
 
   # hierarchical structure
 
